@@ -170,7 +170,10 @@ def check_case(qt, mb, qb, feed, inp, dist, ratios, nontrivial, fraction=None):
     # wrong is the cause; everything downstream is a consequence
     for kk, o in enumerate(g.operators):
       opk, mode, cfg = res[gi][0][kk]
-      if int(m_in.operatorCodes[o.opcodeIndex].builtinCode) in AMPLIFYING:
+      code_ = int(m_in.operatorCodes[o.opcodeIndex].builtinCode)
+      # with 4-bit weights (fraction given) the relative noise of an activation is tens of
+      # percent; a product of two such activations squares it: MUL ends the numeric clause too
+      if code_ in AMPLIFYING or (fraction and code_ == 18):
         dist['numeric_clause_stopped(amplifying op)'] += 1
         break
       cause = None
